@@ -1,7 +1,68 @@
 import SshAudit.Driver.WireOps
+import SshAudit.Driver.ReportOps
+import SshAudit.Driver.OutputOps
+import SshAudit.Model.Ssh1Report
+import SshAudit.Gen.KexDB
+import SshAudit.Gen.Tables
 namespace SshAudit.Driver
+open SshAudit
 
-/-- stub: filled in by the builder of this extension -/
-def ssh1ReportOp (_op : String) (_args : List String) : Option J := none
+def ssh1Tables : Ssh1Report.Tables := { ciphers := Gen.ssh1Ciphers, auths := Gen.ssh1Auths }
+
+/-- banner tokens: `~` (no banner) or `<major> <minor> <software|~> <comments|~> <valid_ascii>` -/
+def decBanner1 : List String → Option (Option Banner.Banner)
+  | ["~"] => some none
+  | [ma, mi, sw, cm, va] => do
+    let ma ← decNat ma; let mi ← decNat mi; let sw ← decOptStr sw; let cm ← decOptStr cm; let va ← decBool va
+    pure (some { protocol := (ma, mi), software := sw, comments := cm, validAscii := va })
+  | _ => none
+
+def jostr1 (o : Option Str) : J := J.ofOpt .str o
+
+def jdoc1 (d : Ssh1Report.Doc) : J := .obj [
+  ("banner", .obj [("raw", .str d.bannerRaw), ("protocol", jostr1 d.bannerProtocol), ("software", jostr1 d.bannerSoftware), ("comments", jostr1 d.bannerComments)]),
+  ("client_ip", jostr1 d.clientIp), ("target", jostr1 d.target),
+  ("key", J.ofStrs d.key), ("enc", J.ofOpt J.ofStrs d.enc), ("aut", J.ofOpt J.ofStrs d.aut),
+  ("fingerprints", .arr [.obj [("type", .str d.fpType), ("fp", jostr1 d.fp)]]),
+  ("recs", .arr (d.recs.map jrec)), ("notes", J.ofStrs d.notes)]
+
+/-- `ssh1.report <cfg,cfg,…> <cmask> <amask> <hkBits> <hkE> <hkN> <client|~> <target|~> <header strs> <rate> <host:port> <sha256 text> <md5 text> <banner tokens…>`:
+    the SSH-1 report of the generated tables (lines per category with notes, status, recommendations, JSON document) and the rendered
+    buffer entries for every listed option set.
+    `ssh1.notes <cat> <name>`: the note list of one name in the SSH-1 database. -/
+def ssh1ReportOp (op : String) (args : List String) : Option J :=
+  match op with
+  | "ssh1.report" =>
+    match args with
+    | cfgs :: cm :: am :: hb :: he :: hn :: cl :: tg :: hd :: rn :: hp :: sha :: md5 :: btoks => do
+      let cfgs ← (cfgs.splitOn ",").mapM decCfg
+      let cm ← decNat cm; let am ← decNat am; let hb ← decNat hb; let he ← decNat he; let hn ← decNat hn
+      let cl ← decOptStr cl; let tg ← decOptStr tg; let hd ← decStrs hd; let rn ← decStr rn; let hp ← decStr hp
+      let sha ← decStr sha; let md5 ← decStr md5
+      let b ← decBanner1 btoks
+      let pkm : Wire.Pkm := { cookie := [], skBits := 0, skE := 0, skN := 0, hkBits := hb, hkE := he, hkN := hn, pflags := 0, cmask := cm, amask := am }
+      let x : Ssh1Report.Input := { pkm := pkm, banner := b, clientHost := cl, target := tg, header := hd, rateNotes := rn, hostPort := hp }
+      let h : Ssh1Report.Hashes := { sha256 := fun _ => sha, md5 := fun _ => md5 }
+      let r := Ssh1Report.report ssh1Tables Gen.ssh1db Gen.ssh2db x
+      let d := Ssh1Report.doc ssh1Tables h Gen.ssh1db Gen.ssh2db x
+      pure (jok (.obj [
+        ("ciphers", J.ofStrs r.ciphers), ("auths", J.ofStrs r.auths),
+        ("key", .arr (r.key.map jline)), ("enc", .arr (r.enc.map jline)), ("aut", .arr (r.aut.map jline)),
+        ("status", .nat r.status), ("unknown", J.ofStrs r.unknown), ("recs", .arr (r.recs.map jrec)), ("notes", J.ofStrs r.notes),
+        ("suppress", J.ofStrs r.suppress), ("maxlen", .nat r.maxlen), ("compat", jostr1 r.compat),
+        ("software", jostr1 (r.software.map (fun sw => Version.display sw true))),
+        ("fpdata", J.ofBytes (Ssh1Report.fpData pkm)),
+        ("doc", jdoc1 d),
+        ("entries", .arr (cfgs.map fun cfg => J.ofStrs (Ssh1Report.render cfg h x r [])))]))
+    | _ => none
+  | "ssh1.notes" =>
+    match args with
+    | [cat, n] => do
+      let cat ← decStr cat; let n ← decStr n
+      pure (jok (match Report.algTexts Gen.ssh1db cat n with
+        | some (ts, unk) => .obj [("notes", .arr (ts.map jnote)), ("unknown", .bool unk)]
+        | none => .null))
+    | _ => none
+  | _ => none
 
 end SshAudit.Driver
